@@ -43,7 +43,12 @@ MANIFEST = {
             "the tabled grounder itself is tied extensionally per generated program (not proved for all programs), except on "
             "ground programs without recursion: there it is modelled (ProbLogModel/GroundAcyclic.lean, exact equality of the "
             "ground program with the real engine's) and proved correct against Sem.wfm for all programs, schedules and call "
-            "histories (C01Ground.C01_ground_acyclic_correct).",
+            "histories (C01Ground.C01_ground_acyclic_correct). On function-free programs WITH variables (no recursion) the "
+            "grounder is modelled too (ProbLogModel/GroundFO.lean, exact equality of ground program, names per query instance "
+            "and both DefineCache tables); proved there: the structural table invariant (C01GroundFO.*_partial); the "
+            "correctness statement CorrectFO (reported instances have the key of their truth value in Sem.wfm of the "
+            "Herbrand instantiation, unreported instances are false) is CHECKED per generated program by executing the Lean "
+            "definitions (Drivers.GroundFOCheck), not proved.",
     "note": "Trusted: Lean kernel + standard axioms; the harness's first-order instantiation (spine.reference); Sem as the "
             "meaning of 'distribution semantics'. The engine (engine_stack.py/eval_nodes.py) is not modelled: agreement is "
             "established on the generated programs only. Floats vs exact rationals at 1e-9.",
